@@ -117,6 +117,11 @@ LEAVES = {
     "shifts_p": (_pos(3, 0.2, 1.0), [0.4, 0.6, 0.8]),
     "rrh_p": (lambda rng: [round(rng.uniform(0.1, 0.9), 6), round(rng.uniform(0.1, 0.9), 6), round(rng.uniform(2.5, 5.0), 6)],
               [0.5, 0.3, 3.5]),
+    # NESTED transformed parameters on one notification path: a TransformedParameter whose x is itself a
+    # TransformedParameter — directly, through a list x (CatParameter), through a model its transform uses
+    "tt_z": (_real(2, -0.5, 0.8), [0.1, 0.4]),
+    "tt_b": (_real(1, -0.5, 0.8), [0.2]),
+    "raw_rates_f": (_pos(6, 0.5, 2.0), [1.1, 0.9, 1.2, 0.8, 1.0, 1.3]),
     # a Weibull site model WITHOUT an invariant category (its proportions are the constant 1/K)
     "wshape2": (_pos(1, 0.4, 2.0), [1.2]),
     "mu_w2": (_pos(1, 0.5, 2.0), [0.9]),
@@ -266,6 +271,23 @@ def spec(values: dict, with_mg94_like: bool = True):
         # ---------------- further classes: JC69, exponential coalescent, torchtree's MultivariateNormal model,
         # BayesianBridge, CTMCScale; a joint INSIDE a joint (container of models holding a container of models)
         {"id": "jc", "type": "JC69"},
+        {"id": "tt_inner", "type": "TransformedParameter", "transform": "torch.distributions.ExpTransform", "x": "tt_z"},
+        {"id": "tt_outer", "type": "TransformedParameter", "transform": "torch.distributions.AffineTransform",
+         "parameters": {"loc": 0.5, "scale": 2.0}, "x": "tt_inner"},
+        {"id": "prior_tt_outer", "type": "Distribution", "distribution": "torch.distributions.Exponential", "x": "tt_outer",
+         "parameters": {"rate": {"id": "prior_tt_outer.rate", "type": "Parameter", "tensor": [1.0, 1.0], "dtype": "torch.float64"}}},
+        {"id": "tt_list", "type": "TransformedParameter", "transform": "torch.distributions.ExpTransform",
+         "x": ["tt_inner", "tt_b"]},
+        {"id": "prior_tt_list", "type": "Distribution", "distribution": "torch.distributions.Exponential", "x": "tt_list",
+         "parameters": {"rate": {"id": "prior_tt_list.rate", "type": "Parameter", "tensor": [1.0, 1.0, 1.0], "dtype": "torch.float64"}}},
+        # the transform of `rates_f` uses a tree whose heights are themselves a TransformedParameter (ftree / fheights)
+        {"id": "rates_f", "type": "TransformedParameter",
+         "transform": "torchtree.evolution.rate_transform.RescaledRateTransform",
+         "parameters": {"rate": "clock_rate", "tree_model": "ftree"}, "x": "raw_rates_f"},
+        {"id": "clock_f", "type": "SimpleClockModel", "tree_model": "ftree", "rate": "rates_f"},
+        {"id": "like_f", "type": "TreeLikelihoodModel", "tree_model": "ftree", "site_model": "site_c",
+         "substitution_model": "jc", "site_pattern": "sp", "branch_model": "clock_f"},
+        {"id": "joint_tt", "type": "JointDistributionModel", "distributions": ["prior_tt_outer", "prior_tt_list", "like_f", "tt_outer"]},
         {"id": "like_jc", "type": "TreeLikelihoodModel", "tree_model": "utree", "site_model": "site_c",
          "substitution_model": "jc", "site_pattern": "sp"},
         {"id": "like_w2", "type": "TreeLikelihoodModel", "tree_model": "utree", "site_model": "site_w2",
